@@ -338,7 +338,19 @@ def class_shape_corpus(tier, seed):
     out = []
     for name, rs in shapes:
         out += class_defs(name, rs)
+    # two edges of one state that lead to states the de-duplication pass folds into one: the edges are MERGED into one
+    # class (ByteClass::merge); classes that meet at 7F / 80, that contain 00 and FF, one inside a hole of the other
+    out += merge_defs("ff", [[(0x00, 0x7F)], [(0x80, 0xFF)]])
+    out += merge_defs("00_fe", [[(0x01, 0x7F)], [(0x00, 0x00), (0x80, 0xFE)]])
+    out += merge_defs("hole", [[(0x30, 0x39), (0x3B, 0x40)], [(0x3A, 0x3A)], [(0xFF, 0xFF)]])
     return out
+
+
+def merge_defs(name, classes):
+    """a definition in which the edges over `classes` (pairwise disjoint) leave one state and reach states with identical
+    continuations, so that Graph::new merges them into one edge"""
+    alts = b"|".join(b"\\x58" + _cls_text(c) + b"\\x59\\x5a" for c in classes[:3])
+    return [mk("clsm_" + name, [rx(b"(?-u)(?:" + alts + b")"), tok(b"\x58")], utf8=False, tags=["class"])]
 
 
 def class_defs(name, rs):
